@@ -145,7 +145,7 @@ Proof.
     + unfold RInv. cbn [r_lines r_view r_x r_y]. repeat split; try assumption; try lia.
       intros i j Hi1 Hi2 Hj. apply B; lia.
     + unfold RInv. cbn [r_lines r_view r_x r_y].
-      pose proof (scroll_rows h s (r_lines r) (blank_line w fg bg) (r_view r) L ltac:(lia)) as Hrow.
+      pose proof (scroll_rows (r_lines r) (blank_line w fg bg) (h + s) (r_view r) L ltac:(lia)) as Hrow.
       split; [apply scroll_length; [assumption|lia]|].
       split; [|split; [lia|split; [lia|split; [lia|intros; lia]]]].
       intros i Hi. rewrite Hrow by assumption.
@@ -167,7 +167,7 @@ Proof.
     + f_equal. lia.
     + replace (r_view r + 1 + y - 1) with (r_view r + h) by lia. apply B; lia.
   - rewrite !r_cell_lcell. cbn [r_lines r_view]. unfold lcell.
-    rewrite (scroll_rows h s (r_lines r) (blank_line w fg bg) (r_view r) L) by lia.
+    rewrite (scroll_rows (r_lines r) (blank_line w fg bg) (h + s) (r_view r) L) by lia.
     destruct (N.ltb_spec (r_view r + y - 1) (r_view r)); [lia|].
     destruct (N.ltb_spec (r_view r + y - 1) (h + s - 1)); destruct (N.ltb_spec y h); try lia.
     + do 2 f_equal. lia.
@@ -292,3 +292,363 @@ Proof.
 Qed.
 
 End RefLevel.
+
+(** ---- the activation redraw, from ANY console content ---- *)
+Definition is_at (c : ccall) (x y : N) : bool :=
+  match c with CWrite _ _ _ x' y' => (x' =? x) && (y' =? y) | _ => false end.
+
+Lemma writes_result (F : N -> N -> cell) (w h : N) cs : forall (g g' : cgrid),
+  gw g = w -> gh g = h ->
+  Forall (fun c => exists x y, 1 <= x <= w /\ 1 <= y <= h /\ c = write_call (F x y) x y) cs ->
+  calls_rel g cs g' ->
+  forall x y, gcell g' x y = if existsb (fun c => is_at c x y) cs then F x y else gcell g x y.
+Proof.
+  induction cs as [|c t IH]; intros g g' Gw Gh HF H x y.
+  - apply calls_rel_nil in H. now subst.
+  - inversion HF as [|c' t' (x0 & y0 & Hx0 & Hy0 & Ec) HF' Eq]. subst c' t'.
+    inversion H as [|g0 c0 junk cs g0' H1 Eg Ec0 Eg']. subst g0 c0 cs g0'. subst c.
+    destruct (apply_call_dims junk g (write_call (F x0 y0) x0 y0)) as (A1 & A2).
+    rewrite Gw in A1. rewrite Gh in A2. rewrite (IH _ g' A1 A2 HF' H1 x y).
+    cbn [existsb]. destruct (existsb (fun c => is_at c x y) t); [now rewrite orb_true_r|].
+    rewrite orb_false_r. destruct (F x0 y0) as [[ch f] b] eqn:EF. cbn [write_call is_at].
+    rewrite apply_write_cell by lia.
+    replace (x0 =? x) with (x =? x0) by apply N.eqb_sym.
+    replace (y0 =? y) with (y =? y0) by apply N.eqb_sym.
+    destruct ((x =? x0) && (y =? y0)) eqn:E; [|reflexivity].
+    apply andb_true_iff in E as (E1 & E2). apply N.eqb_eq in E1. apply N.eqb_eq in E2. subst x y.
+    now rewrite EF.
+Qed.
+
+Lemma seqN_in x a n : a <= x < a + n -> In x (seqN a n).
+Proof.
+  intros H. unfold seqN. apply in_map_iff. exists (N.to_nat x). split; [lia|]. apply in_seq. lia.
+Qed.
+
+Lemma redraw_result w h r (g g' : cgrid) :
+  gw g = w -> gh g = h -> calls_rel g (e_redraw w h r) g' ->
+  gw g' = w /\ gh g' = h /\ forall x y, 1 <= x <= w -> 1 <= y <= h -> gcell g' x y = r_cell r x y.
+Proof.
+  intros Gw Gh H. destruct (calls_rel_dims _ _ _ H) as (D1 & D2).
+  split; [congruence|]. split; [congruence|]. intros x y Hx Hy.
+  rewrite (writes_result (r_cell r) w h (e_redraw w h r) g g' Gw Gh); [| |exact H].
+  - replace (existsb (fun c => is_at c x y) (e_redraw w h r)) with true; [reflexivity|].
+    symmetry. apply existsb_exists. exists (write_call (r_cell r x y) x y). split.
+    + unfold e_redraw. apply in_flat_map. exists y. split; [apply seqN_in; lia|].
+      apply in_map_iff. exists x. split; [reflexivity|apply seqN_in; lia].
+    + destruct (r_cell r x y) as [[ch f] b]. cbn [write_call is_at]. now rewrite !N.eqb_refl.
+  - unfold e_redraw. apply Forall_forall. intros c Hc. apply in_flat_map in Hc as (y0 & Hy0 & Hc).
+    apply in_map_iff in Hc as (x0 & <- & Hx0). apply in_seqN in Hy0. apply in_seqN in Hx0.
+    exists x0, y0. repeat split; lia.
+Qed.
+
+Section RefLevel2.
+Variables (w h s tab fg bg : N).
+Hypothesis Hw : 1 <= w.
+Hypothesis Hh : 1 <= h.
+
+Notation RInv := (RInv w h s fg bg).
+Notation Sync := (Sync w h).
+
+Lemma rinv_step r o : RInv r -> RInv (r_step w h s tab fg bg r o).
+Proof.
+  intros I. destruct o as [w0 h0 f0 b0|bs|b|x y|s']; cbn [r_step]; try exact I.
+  - now apply rinv_bytes.
+  - now apply rinv_byte.
+  - pose proof I as (_ & _ & X & Y & _). unfold r_set_cursor. apply rinv_cursor; [exact I| |].
+    + unfold clamp. destruct (N.ltb_spec x 1); [lia|]. destruct (N.ltb_spec w x); lia.
+    + unfold clamp. destruct (N.ltb_spec y 1); [lia|]. destruct (N.ltb_spec h y); lia.
+Qed.
+
+(** one API call keeps the console equal to the viewport of an active terminal; activation
+    establishes it whatever the console showed *)
+Lemma sync_step st r g o g' :
+  RInv r -> gw g = w -> gh g = h ->
+  (st = tty_StateActive -> Sync true r g) ->
+  calls_rel g (e_step w h s tab fg bg st r o) g' ->
+  Sync (st_step st o =? tty_StateActive) (r_step w h s tab fg bg r o) g'.
+Proof.
+  intros I Gw Gh S H.
+  assert (S0 : Sync (st =? tty_StateActive) r g).
+  { destruct (N.eqb_spec st tty_StateActive) as [E|E]; [now apply S|].
+    split; [assumption|]. split; [assumption|]. discriminate. }
+  destruct o as [w0 h0 f0 b0|bs|b|x y|s']; cbn [r_step e_step st_step] in *.
+  - apply calls_rel_nil in H. subst g'. exact S0.
+  - now apply (sync_bytes w h s tab fg bg Hw Hh _ bs r g).
+  - now apply (sync_byte w h s tab fg bg Hw Hh _ r g).
+  - apply calls_rel_nil in H. subst g'. exact S0.
+  - destruct (N.eqb_spec st s') as [->|Ne].
+    + apply calls_rel_nil in H. subst g'. exact S0.
+    + destruct (N.eqb_spec s' tty_StateActive) as [->|Na].
+      * destruct (redraw_result w h r g g' Gw Gh H) as (A & B & C).
+        split; [exact A|]. split; [exact B|]. intros _. exact C.
+      * apply calls_rel_nil in H. subst g'. split; [assumption|]. split; [assumption|]. discriminate.
+Qed.
+
+(** every expected call lies inside the grid *)
+Lemma in_grid_put act r c : RInv r -> Forall (call_in_grid w h) (e_put act r c).
+Proof.
+  intros (_ & _ & X & Y & _). unfold e_put. destruct act; [|constructor].
+  constructor; [|constructor]. destruct c as [[ch f] b]. cbn [write_call call_in_grid]. lia.
+Qed.
+
+Lemma in_grid_lf act r : RInv r -> Forall (call_in_grid w h) (e_lf w h fg bg act r).
+Proof.
+  intros (_ & _ & X & Y & _). unfold e_lf. destruct (N.ltb_spec (r_y r) h); [constructor|].
+  destruct act; [|constructor]. repeat constructor; cbn [call_in_grid]; lia.
+Qed.
+
+Lemma in_grid_putc act r c : RInv r -> Forall (call_in_grid w h) (e_putc w h fg bg act r c).
+Proof.
+  intros I. unfold e_putc. apply Forall_app. split; [now apply in_grid_put|].
+  destruct (r_x r <? w); [constructor|]. apply in_grid_lf. now apply rinv_put.
+Qed.
+
+Lemma in_grid_iter act n : forall r, RInv r -> Forall (call_in_grid w h) (e_iter w h s fg bg act n r).
+Proof.
+  induction n as [|n IH]; intros r I; cbn [e_iter]; [constructor|].
+  apply Forall_app. split; [now apply in_grid_putc|]. apply IH. now apply rinv_putc.
+Qed.
+
+Lemma in_grid_byte act r b : RInv r -> Forall (call_in_grid w h) (e_byte w h s tab fg bg act r b).
+Proof.
+  intros I. pose proof I as (_ & _ & X & Y & _). unfold e_byte.
+  destruct (b =? 13); [constructor|]. destruct (b =? 10); [now apply in_grid_lf|].
+  destruct (b =? 8).
+  { destruct (N.ltb_spec 1 (r_x r)); [|constructor]. apply in_grid_put. apply rinv_cursor; [exact I|lia|exact Y]. }
+  destruct (b =? 9); [now apply in_grid_iter|]. now apply in_grid_putc.
+Qed.
+
+Lemma in_grid_bytes act bs : forall r, RInv r -> Forall (call_in_grid w h) (e_bytes w h s tab fg bg act r bs).
+Proof.
+  induction bs as [|b t IH]; intros r I; cbn [e_bytes]; [constructor|].
+  apply Forall_app. split; [now apply in_grid_byte|]. apply IH. now apply (rinv_byte w h s tab fg bg Hw Hh).
+Qed.
+
+Lemma in_grid_step st r o : RInv r -> Forall (call_in_grid w h) (e_step w h s tab fg bg st r o).
+Proof.
+  intros I. destruct o as [w0 h0 f0 b0|bs|b|x y|s']; cbn [e_step]; try constructor.
+  - now apply in_grid_bytes.
+  - now apply in_grid_byte.
+  - destruct (st =? s'); [constructor|]. destruct (s' =? tty_StateActive); [|constructor].
+    unfold e_redraw. apply Forall_forall. intros c Hc. apply in_flat_map in Hc as (y0 & Hy0 & Hc).
+    apply in_map_iff in Hc as (x0 & <- & Hx0). apply in_seqN in Hy0. apply in_seqN in Hx0.
+    destruct (r_cell r x0 y0) as [[ch f] b]. cbn [write_call call_in_grid]. lia.
+Qed.
+
+(** an inactive terminal that is not being activated expects no call at all *)
+Lemma silent_putc r c : e_putc w h fg bg false r c = [].
+Proof.
+  unfold e_putc, e_put, e_lf. cbn [app]. destruct (r_x r <? w); [reflexivity|].
+  destruct (r_y (r_put r c) <? h); reflexivity.
+Qed.
+
+Lemma silent_byte r b : e_byte w h s tab fg bg false r b = [].
+Proof.
+  unfold e_byte. destruct (b =? 13); [reflexivity|].
+  destruct (b =? 10); [unfold e_lf; destruct (r_y r <? h); reflexivity|].
+  destruct (b =? 8); [destruct (1 <? r_x r); reflexivity|].
+  destruct (b =? 9); [|apply silent_putc].
+  generalize (N.to_nat tab). intros n. revert r. induction n as [|n IH]; intros r; cbn [e_iter]; [reflexivity|].
+  now rewrite silent_putc, IH.
+Qed.
+
+Lemma silent_bytes bs : forall r, e_bytes w h s tab fg bg false r bs = [].
+Proof.
+  induction bs as [|b t IH]; intros r; cbn [e_bytes]; [reflexivity|]. now rewrite silent_byte, IH.
+Qed.
+
+Lemma silent_step st r o :
+  st <> tty_StateActive -> (forall s', o = OSetState s' -> s' <> tty_StateActive) ->
+  e_step w h s tab fg bg st r o = [].
+Proof.
+  intros Hs Ho.
+  destruct o as [w0 h0 f0 b0|bs|b|x y|s']; cbn [e_step]; try reflexivity.
+  - destruct (N.eqb_spec st tty_StateActive); [contradiction|]. apply silent_bytes.
+  - destruct (N.eqb_spec st tty_StateActive); [contradiction|]. apply silent_byte.
+  - destruct (st =? s'); [reflexivity|].
+    destruct (N.eqb_spec s' tty_StateActive) as [E|E]; [|reflexivity].
+    exfalso. now apply (Ho s').
+Qed.
+
+End RefLevel2.
+
+(** ---- histories: expected calls of a whole run ---- *)
+Fixpoint e_run (w h s tab fg bg : N) (st : N) (r : rterm) (ops : list op) : list ccall :=
+  match ops with
+  | [] => []
+  | o :: t => e_step w h s tab fg bg st r o ++
+              e_run w h s tab fg bg (st_step st o) (r_step w h s tab fg bg r o) t
+  end.
+
+Section Histories.
+Variables (w h s tab fg bg : N).
+Hypothesis Hw : 1 <= w.
+Hypothesis Hh : 1 <= h.
+
+Notation RInv := (RInv w h s fg bg).
+Notation Sync := (Sync w h).
+
+Lemma sync_run ops : forall st r g g',
+  RInv r -> gw g = w -> gh g = h -> (st = tty_StateActive -> Sync true r g) ->
+  calls_rel g (e_run w h s tab fg bg st r ops) g' ->
+  Sync (fold_left st_step ops st =? tty_StateActive) (fold_left (r_step w h s tab fg bg) ops r) g'.
+Proof.
+  induction ops as [|o t IH]; intros st r g g' I Gw Gh S H; cbn [e_run fold_left] in *.
+  - apply calls_rel_nil in H. subst g'.
+    destruct (N.eqb_spec st tty_StateActive) as [E|E]; [now apply S|].
+    split; [assumption|]. split; [assumption|]. discriminate.
+  - apply calls_rel_app in H as (g1 & H1 & H2).
+    pose proof (sync_step w h s tab fg bg Hw Hh st r g o g1 I Gw Gh S H1) as (Gw1 & Gh1 & S1).
+    apply (IH _ _ g1); [now apply rinv_step|exact Gw1|exact Gh1| |exact H2].
+    intros E. split; [exact Gw1|]. split; [exact Gh1|]. intros _. apply S1. now apply N.eqb_eq.
+Qed.
+
+Lemma in_grid_run ops : forall st r, RInv r -> Forall (call_in_grid w h) (e_run w h s tab fg bg st r ops).
+Proof.
+  induction ops as [|o t IH]; intros st r I; cbn [e_run]; [constructor|].
+  apply Forall_app. split; [now apply in_grid_step|]. apply IH. now apply rinv_step.
+Qed.
+
+Lemma silent_run ops : forall st r,
+  st <> tty_StateActive -> (forall s', In (OSetState s') ops -> s' <> tty_StateActive) ->
+  e_run w h s tab fg bg st r ops = [] /\ fold_left st_step ops st <> tty_StateActive.
+Proof.
+  induction ops as [|o t IH]; intros st r Hs Ho; cbn [e_run fold_left]; [auto|].
+  rewrite silent_step; [|exact Hs|intros s' ->; apply Ho; now left]. cbn [app].
+  apply IH.
+  - destruct o; cbn [st_step]; try exact Hs. apply Ho. now left.
+  - intros s' Hi. apply Ho. now right.
+Qed.
+
+End Histories.
+
+(** ---- the model of vt.go composed with the console ---- *)
+Section ModelLevel.
+Variables (w h s tab fg bg : N).
+Hypothesis Hw : 1 <= w.
+Hypothesis Hh : 1 <= h.
+Hypothesis Hsz : w * (h + s) * 3 < two32.
+
+Lemma rinv_of_model v r : InvVT w h s tab fg bg v -> R w h s v r -> RInv w h s fg bg r.
+Proof.
+  intros (G & (DL & DY & DV & DB) & (CX & CO)) ((LR & EV & EY) & EX).
+  destruct LR as (L & LW & LC). unfold RInv. rewrite EX, EY, EV.
+  split; [exact L|]. split; [exact LW|]. split; [exact CX|]. split; [exact DY|]. split; [exact DV|].
+  intros i j Hi1 Hi2 Hj. rewrite LC by assumption. now apply DB.
+Qed.
+
+Lemma r_cell_v_cell v r x y : InvVT w h s tab fg bg v -> R w h s v r ->
+  1 <= x <= w -> 1 <= y <= h -> r_cell r x y = v_cell v x y.
+Proof.
+  intros (G & (DL & DY & DV & DB) & (CX & CO)) ((LR & EV & EY) & EX) Hx Hy.
+  destruct G as (_ & Gvw & _). destruct LR as (L & LW & LC).
+  rewrite r_cell_lcell, EV. rewrite LC by lia. unfold v_cell, off. now rewrite Gvw.
+Qed.
+
+Lemma run_sim18 ops : forall v r,
+  InvVT w h s tab fg bg v -> R w h s v r -> Forall op_wf ops ->
+  exists v', run_ops v ops = Ok v' /\ InvVT w h s tab fg bg v' /\
+    R w h s v' (fold_left (r_step w h s tab fg bg) ops r) /\
+    st v' = fold_left st_step ops (st v) /\
+    trace v' = rev (e_run w h s tab fg bg (st v) r ops) ++ trace v.
+Proof.
+  induction ops as [|o t IH]; intros v r I RR WF.
+  - exists v. cbn [run_ops fold_left e_run rev app]. auto.
+  - inversion WF as [|? ? WFo WFt]; subst.
+    destruct (step_sim w h s tab fg bg Hw Hh Hsz v r o I RR WFo) as (v1 & res & E & I1 & R1 & S1 & T1).
+    destruct (IH v1 _ I1 R1 WFt) as (v2 & E2 & I2 & R2 & S2 & T2).
+    exists v2. cbn [run_ops fold_left e_run]. rewrite E. cbn [bind fst].
+    split; [exact E2|]. split; [exact I2|]. split; [exact R2|]. split; [now rewrite S2, S1|].
+    rewrite T2, T1, S1. now rewrite rev_app_distr, app_assoc.
+Qed.
+
+Lemma new_state_inactive : tty_newState <> tty_StateActive.
+Proof. intros E. discriminate E. Qed.
+
+End ModelLevel.
+
+(** ---- the C18 statements ---- *)
+Theorem sync_inv_thm :
+  forall w h sb tab fg bg ops (g0 : cgrid),
+    1 <= w -> 1 <= h -> tab <= 255 -> w * (h + sb) * 3 < two32 -> Forall op_wf ops ->
+    gw g0 = w -> gh g0 = h ->
+    exists v0 v, attach (new_vt tab sb) w h fg bg = Ok v0 /\ run_ops v0 ops = Ok v /\
+      forall g, calls_rel g0 (rev (trace v)) g -> st v = tty_StateActive -> shows g v.
+Proof.
+  intros w h sb tab fg bg ops g0 Hw Hh Ht Hsz WF Gw Gh.
+  destruct (attach_sim w h sb tab fg bg Hw Hh Hsz) as (v0 & E0 & I0 & R0 & S0 & T0).
+  destruct (run_sim18 w h sb tab fg bg Hw Hh Hsz ops v0 _ I0 R0 WF) as (v & E & I & RR & S & T).
+  exists v0, v. split; [exact E0|]. split; [exact E|]. intros g H Ha.
+  rewrite T, T0, app_nil_r, rev_involutive in H.
+  pose proof (rinv_of_model w h sb tab fg bg v0 _ I0 R0) as RI0.
+  destruct (sync_run w h sb tab fg bg Hw Hh ops (st v0) _ g0 g RI0 Gw Gh) as (Gw' & Gh' & SY); [|exact H|].
+  { rewrite S0. intros E1. now apply new_state_inactive in E1. }
+  rewrite <- S in SY. destruct I as (G & D & C). pose proof G as (_ & Gvw & Gvh & _).
+  split; [congruence|]. split; [congruence|]. intros x y Hx Hy. rewrite Gvw in Hx. rewrite Gvh in Hy.
+  rewrite SY; [|now apply N.eqb_eq|exact Hx|exact Hy].
+  apply (r_cell_v_cell w h sb tab fg bg); try assumption. exact (conj G (conj D C)).
+Qed.
+
+Theorem activate_redraws_thm :
+  forall w h sb tab fg bg ops,
+    1 <= w -> 1 <= h -> tab <= 255 -> w * (h + sb) * 3 < two32 -> Forall op_wf ops ->
+    exists v0 v, attach (new_vt tab sb) w h fg bg = Ok v0 /\ run_ops v0 ops = Ok v /\
+      (st v <> tty_StateActive ->
+       exists v' calls, set_state v tty_StateActive = Ok v' /\ st v' = tty_StateActive /\
+         trace v' = rev calls ++ trace v /\
+         forall g g' : cgrid, gw g = w -> gh g = h -> calls_rel g calls g' -> shows g' v').
+Proof.
+  intros w h sb tab fg bg ops Hw Hh Ht Hsz WF.
+  destruct (attach_sim w h sb tab fg bg Hw Hh Hsz) as (v0 & E0 & I0 & R0 & S0 & T0).
+  destruct (run_sim18 w h sb tab fg bg Hw Hh Hsz ops v0 _ I0 R0 WF) as (v & E & I & RR & S & T).
+  exists v0, v. split; [exact E0|]. split; [exact E|]. intros Hs.
+  destruct (set_state_sim w h sb tab fg bg Hw Hh Hsz v _ tty_StateActive I RR) as (v' & E' & I' & R' & S' & T').
+  destruct (N.eqb_spec (st v) tty_StateActive) as [|_]; [contradiction|].
+  rewrite N.eqb_refl in T'.
+  exists v', (e_redraw w h (fold_left (r_step w h sb tab fg bg) ops (r_init w h sb fg bg))).
+  split; [exact E'|]. split; [exact S'|]. split; [exact T'|].
+  intros g g' Gw Gh H. destruct (redraw_result w h _ g g' Gw Gh H) as (A & B & C).
+  destruct I' as (G' & D' & C'). pose proof G' as (_ & Gvw & Gvh & _).
+  split; [congruence|]. split; [congruence|]. intros x y Hx Hy. rewrite Gvw in Hx. rewrite Gvh in Hy.
+  rewrite C by assumption.
+  apply (r_cell_v_cell w h sb tab fg bg); try assumption. exact (conj G' (conj D' C')).
+Qed.
+
+Theorem inactive_silent_thm :
+  forall w h sb tab fg bg ops1 ops2,
+    1 <= w -> 1 <= h -> tab <= 255 -> w * (h + sb) * 3 < two32 ->
+    Forall op_wf ops1 -> Forall op_wf ops2 ->
+    (forall s', In (OSetState s') ops2 -> s' <> tty_StateActive) ->
+    exists v0 v1 v2, attach (new_vt tab sb) w h fg bg = Ok v0 /\
+      run_ops v0 ops1 = Ok v1 /\ run_ops v1 ops2 = Ok v2 /\
+      (st v1 <> tty_StateActive -> trace v2 = trace v1 /\ st v2 <> tty_StateActive).
+Proof.
+  intros w h sb tab fg bg ops1 ops2 Hw Hh Ht Hsz WF1 WF2 NA.
+  destruct (attach_sim w h sb tab fg bg Hw Hh Hsz) as (v0 & E0 & I0 & R0 & S0 & T0).
+  destruct (run_sim18 w h sb tab fg bg Hw Hh Hsz ops1 v0 _ I0 R0 WF1) as (v1 & E1 & I1 & R1 & S1 & T1).
+  destruct (run_sim18 w h sb tab fg bg Hw Hh Hsz ops2 v1 _ I1 R1 WF2) as (v2 & E2 & I2 & R2 & S2 & T2).
+  exists v0, v1, v2. split; [exact E0|]. split; [exact E1|]. split; [exact E2|]. intros Hs.
+  destruct (silent_run w h sb tab fg bg ops2 (st v1) (fold_left (r_step w h sb tab fg bg) ops1 (r_init w h sb fg bg)) Hs NA) as (A & B).
+  rewrite A in T2. split; [exact T2|]. now rewrite S2.
+Qed.
+
+Theorem in_grid_thm :
+  forall w h sb tab fg bg ops,
+    1 <= w -> 1 <= h -> tab <= 255 -> w * (h + sb) * 3 < two32 -> Forall op_wf ops ->
+    exists v0 v, attach (new_vt tab sb) w h fg bg = Ok v0 /\ run_ops v0 ops = Ok v /\
+      Forall (call_in_grid w h) (trace v).
+Proof.
+  intros w h sb tab fg bg ops Hw Hh Ht Hsz WF.
+  destruct (attach_sim w h sb tab fg bg Hw Hh Hsz) as (v0 & E0 & I0 & R0 & S0 & T0).
+  destruct (run_sim18 w h sb tab fg bg Hw Hh Hsz ops v0 _ I0 R0 WF) as (v & E & I & RR & S & T).
+  exists v0, v. split; [exact E0|]. split; [exact E|].
+  rewrite T, T0, app_nil_r. apply Forall_rev.
+  apply (in_grid_run w h sb tab fg bg Hw Hh). apply (rinv_of_model w h sb tab fg bg v0); assumption.
+Qed.
+
+(** the executable composition used by the correspondence driver is one instance of [calls_rel] *)
+Lemma apply_calls_rel cs : forall g, calls_rel g cs (apply_calls g cs).
+Proof.
+  induction cs as [|c t IH]; intros g; cbn [apply_calls]; [constructor|].
+  econstructor. apply IH.
+Qed.
